@@ -450,6 +450,20 @@ impl QueryRunner {
         self.execute_statement(bound)
     }
 
+    /// A statement of a session: one that fails takes back the rows it had already written (the
+    /// transaction stays open and would otherwise commit them). If that is not possible the
+    /// transaction is aborted.
+    pub(crate) fn prepare_and_run_atomically(&self, sql: &str) -> QueryRunnerResult<QueryResult> {
+        let result = self.prepare_and_run(sql);
+        if result.is_err() {
+            let mut executor = dml::DmlExecutor::new(self.ctx.clone(), self.logger.clone());
+            if executor.undo_statement().is_err() {
+                self.ctx.abort_after_failed_undo();
+            }
+        }
+        result
+    }
+
     pub(crate) fn prepare_and_explain(&self, sql: &str) -> QueryRunnerResult<String> {
         let bound = self.prepare(sql)?;
         self.explain(bound)
@@ -519,8 +533,12 @@ impl MultiQueryRunner {
         // Execute all statements sequentially, collecting results or failing fast
 
         for sql in statements {
-            let runner = QueryRunner::new(self.ctx.clone(), self.logger.clone());
-            results.push(runner.prepare_and_run(sql)?);
+            // Each statement under its own journal: the failing one takes back what it wrote.
+            let runner = QueryRunner::new(
+                self.ctx.clone().with_statement_journal(),
+                self.logger.clone(),
+            );
+            results.push(runner.prepare_and_run_atomically(sql)?);
         }
 
         Ok(results)
